@@ -445,6 +445,7 @@ def rule_nruns(eng, rep, rule="C10-5.nruns-counts-runs"):
         return s
 
     fl = Flow(cfg, (0, False, "M"), node_fn, edge_fn)
+    _LAST_FLOW["nruns"] = (sm, cfg, fl)
     nb = nc = nr = 0
     for n, d in sorted(cfg.g.nodes(data=True)):
         if d["kind"] != "stmt":
@@ -507,6 +508,29 @@ def rule_nruns(eng, rep, rule="C10-5.nruns-counts-runs"):
         rep.ok(rule, eng.where(solve, ci.node), "soln.nruns is the run counter returned by the last solve_main call")
     else:
         rep.bad(rule, eng.where(solve, ci.node), "solver.solve|soln-nruns-origin", "soln.nruns is not the run counter returned by solve_main")
+
+
+_LAST_FLOW = {}
+
+
+def thorough(eng, rep):
+    """Thorough tier: one witness path per (exit site, state) pair of the run-counting data-flow, written to the evidence."""
+    if "nruns" not in _LAST_FLOW:
+        return
+    sm, cfg, fl = _LAST_FLOW["nruns"]
+    wit = []
+    pairs = 0
+    for n, d in sorted(cfg.g.nodes(data=True)):
+        if d["kind"] == "stmt" and (d.get("jump") in ("break", "continue") or isinstance(d["ast"], ast.Return)):
+            for s in sorted(fl.states(n), key=str):
+                pairs += 1
+                if len(wit) < 90:
+                    p = fl.path_to(n, s)
+                    wit.append({"exit": cfg.describe(n), "state": {"increments_since_iteration_entry": s[0], "soft_restart_on_path": s[1], "exit_info": s[2]},
+                                "witness_path_length": len(p), "witness_tail": cfg.describe_path(p)[-6:]})
+    rep.extra["exit_site_state_pairs"] = pairs
+    rep.extra["witness_paths"] = wit
+    rep.explain("Thorough tier: %d distinct (exit site, state) pairs of the fully correlated run-counting data-flow over solve_main, one witness path each." % pairs)
 
 
 def _innermost_loop(cfg, n):
